@@ -1,6 +1,6 @@
 import Driver.TableDrv
 import Driver.Lin
-import CacheVerif.Model.Proto
+import CacheVerif.Model.ProtoApi
 /-!
 Trace correspondence for M4a (`Model.Proto`): replays, step by step, the protocol-level trace the real
 `internal/xsync` code produced under the cooperative scheduler (table-pointer loads/stores, resize-flag
@@ -30,16 +30,16 @@ def mkParams (isMap : Bool) (small hm seed : Nat) : Params String :=
 def parsePOp (t : List String) : Option (POp String Val) :=
   match t with
   | ["load", k] => some (.load k)
-  | ["store", k, v] => do let x ← parseVal v; some (.dc k (fun _ => (x, false)) false false)
-  | ["loadorstore", k, v] => do let x ← parseVal v; some (.dc k (fun _ => (x, false)) true false)
-  | ["loadandstore", k, v] => do let x ← parseVal v; some (.dc k (fun _ => (x, false)) false false)
-  | ["loadorcompute", k, v] => do let x ← parseVal v; some (.dc k (fun _ => (x, false)) true false)
+  | ["store", k, v] => do let x ← parseVal v; Proto.api "store" k x (fun _ => (x, false))
+  | ["loadorstore", k, v] => do let x ← parseVal v; Proto.api "loadorstore" k x (fun _ => (x, false))
+  | ["loadandstore", k, v] => do let x ← parseVal v; Proto.api "loadandstore" k x (fun _ => (x, false))
+  | ["loadorcompute", k, v] => do let x ← parseVal v; Proto.api "loadorcompute" k x (fun _ => (x, false))
   | ["compute", k, a1, a2] => do
       let x ← parseAct a1
       let y ← parseAct a2
-      some (.dc k (fun o => match o with | some _ => x | none => y) false true)
-  | ["loadanddelete", k] => some (.dc k (fun o => (o.getD .nil, true)) false false)
-  | ["delete", k] => some (.dc k (fun o => (o.getD .nil, true)) false false)
+      Proto.api "compute" k .nil (fun o => match o with | some _ => x | none => y)
+  | ["loadanddelete", k] => Proto.api "loadanddelete" k .nil (fun _ => (.nil, true))
+  | ["delete", k] => Proto.api "delete" k .nil (fun _ => (.nil, true))
   | ["size"] => some .size
   | ["clear"] => some .clear
   | _ => none
